@@ -33,10 +33,11 @@ git -C /repo apply "$out/patch.diff" || exit 2
 export VERIF_EVIDENCE_DIR=/verif/work/evidence-scratch; mkdir -p $VERIF_EVIDENCE_DIR
 unset CARGO_TARGET_DIR
 caught=""
-for p in C01 C02 C03 C04 C05 C06 C07 C08 C09 C10 C11 C12 C13 C14 C15 C16 C17 C18 C19 C20; do
+for p in ${CHECKS:-C01 C02 C03 C04 C05 C06 C07 C08 C09 C10 C11 C12 C13 C14 C15 C16 C17 C18 C19 C20}; do
   r=$(/verif/check $p quick 2>&1); rc=$?
   if [ $rc -eq 1 ]; then caught="$caught $p"; echo "-- $p CAUGHT: $(echo "$r" | grep -m1 -E '^(counterexample|regression)' | cut -c1-300)" >> "$log";
   elif [ $rc -ne 0 ]; then echo "-- $p exit $rc: $(echo "$r" | tail -2)" >> "$log"; fi
 done
 git -C /repo checkout -- .
+echo "checks_run: ${CHECKS:-all}" >> "$log"
 echo "caught_by:$caught" | tee -a "$log"
